@@ -22,8 +22,11 @@ ASSUMPTIONS = [
     "model validated against the implementation by execution on generated lists, not verified against Go source",
     "sort.Slice is modelled by the insertion sort it runs on at most 12 elements; on longer slices the result is the same "
     "whenever the comparator separates the elements (theorem); longer slices with ties are skipped and counted",
-    "permutation invariance for Maven/PyPI is decided under the side condition that no two different spellings compare equal "
-    "(F-C12-1); inside that condition a difference is a violation",
+    "while SortVersions has no tie-break (F-C12-1 open) permutation invariance for Maven/PyPI is decided under the side condition "
+    "that no two different spellings compare equal; inside that condition, and everywhere once the finding is closed, a "
+    "difference is a violation",
+    "the variant of match.go (latest by tag or by substring, matchRequirement sorting or not, tie-break or not) is detected on every "
+    "run by replaying the recorded witnesses on the Go code; the correspondence runs the model in that variant",
 ]
 
 MANIFEST = dict(
@@ -214,11 +217,11 @@ def check_matchreq(ctx, s, req, recs, tab, perms, outs):
                 return
     if any(r != results[0] for r in results):
         payload = {"system": s, "requirement": sx(req), "versions": sx(recs), "orders": perms}
-        if s != NPM and cc.equal_distinct(tab, s, strs):
+        if s != NPM and all(r == [x for x in [d[i] for i in p] if cc.satisfies(tab, s, req, x)] for r, p in zip(results, perms)):
+            known(ctx, "F-C12-1b", "MatchRequirement (Maven/PyPI) result depends on the order of the input list", payload, sx(results), None)
+        elif s != NPM and cc.equal_distinct(tab, s, strs):
             known(ctx, "F-C12-1", "MatchRequirement (Maven/PyPI) depends on the input order for versions that compare equal but are "
                   "spelled differently", payload, sx(results), None)
-        elif s != NPM and all(r == [x for x in [d[i] for i in p] if cc.satisfies(tab, s, req, x)] for r, p in zip(results, perms)):
-            known(ctx, "F-C12-1b", "MatchRequirement (Maven/PyPI) result depends on the order of the input list", payload, sx(results), None)
         else:
             ctx.violation("MatchRequirement (npm): result depends on the order of the input list", payload, observed=sx(results))
 
